@@ -6,7 +6,7 @@ Definition seq_run (l : list histcase) : list N * list N * list (N * N) :=
 Definition seq_debug (l : list histcase) : list (option (N * N)) := map hist_check l.
 
 (* debugging aid: what the model does at step i (1-based; 0 = init) *)
-Fixpoint client_at (c : client) (l : list stepobs) (i : nat) : option (client * stepobs) :=
+Fixpoint client_at (c : client * store) (l : list stepobs) (i : nat) : option ((client * store) * stepobs) :=
   match l, i with
   | s :: _, O => Some (c, s)
   | s :: r, S i' => client_at (fst (check_step c s)) r i'
@@ -15,12 +15,12 @@ Fixpoint client_at (c : client) (l : list stepobs) (i : nat) : option (client * 
 Definition model_at (h : histcase) (i : nat) :=
   match h with
   | Hist cf cid ievs iret steps =>
-    match op_init cf cid (tapes_of ievs empty_world) with
-    | Some ((Some c, _), _) =>
-      match client_at c steps (i - 1) with
-      | Some (c, s) =>
-        match step c (so_op s) (tapes_of (so_evs s) empty_world) with
-        | Some ((c', r), w) => Some (rev (w_log w), r, sort_done (k_done c'), sort_xev (k_xev c'), k_online c', (t_st w, t_dial w, t_wr w, t_rd w))
+    match op_init cf cid (tapes_of ievs (map_world [])) with
+    | Some ((Some c, _), w0) =>
+      match client_at (c, store_of w0) steps (i - 1) with
+      | Some ((c, m), s) =>
+        match step c (so_op s) (tapes_of (so_evs s) (map_world m)) with
+        | Some ((c', r), w) => Some (rev (w_log w), r, sort_done (k_done c'), sort_xev (k_xev c'), k_online c', (t_stf w, t_dial w, t_wr w, t_rd w))
         | None => None
         end
       | None => None
